@@ -211,10 +211,16 @@ def call_model(c, t, at, edge):
                     return R(v)
         a = av(args[0])
         return a if a[0] == "r" else R(a)
-    if (name.endswith("Index<I>>::index") or name.endswith("IndexMut<I>>::index_mut")) and len(args) == 2:
+    if (name.endswith("Index<I>>::index") or name.endswith("IndexMut<I>>::index_mut")
+            or (name.endswith("::index") and "ops::Index<" in name) or (name.endswith("::index_mut") and "ops::IndexMut<" in name)) and len(args) == 2:
         a = deref_av(av(args[0]))
         if a[0] == "v":
             i = av(args[1])
+            rng_full = args[1]
+            while rng_full[0] in ("ref", "deref"):
+                rng_full = rng_full[2] if rng_full[0] == "ref" else rng_full[1]
+            if rng_full[0] == "agg" and isinstance(rng_full[2], str) and rng_full[2].startswith("std::ops::RangeFull"):
+                return R(a)            # v[..] is the whole of v
             if i[0] == "s" and sget(i, "start") is not None and sget(i, "end") is not None:
                 # v[a..b]: a slice of b - a elements of the same kind
                 lo, hi = sget(i, "start"), sget(i, "end")
